@@ -202,7 +202,8 @@ def run(ctx):
             continue
         key = "benchmark seed=%s stimuli=%d" % (tasks[2 * k]["seed"], len(ind["stimuli"]))
         if len(r1["trains"]) != 2:
-            corr_errors.append("expected 2 candidate benchmarks, saw %d" % len(r1["trains"]))
+            probe_failures.append({"key": "candidates " + key, "what": "%d candidate benchmark(s) were made (steppers %s), expected one explicit and one implicit; scripted step-size suggestions %s; returned solver names %s" % (
+                len(r1["trains"]), r1["steppers"], tasks[2 * k].get("hsug"), r1["names"]), "replay": {"kind": "bench", "task": tasks[2 * k]}})
             continue
         if r1["steppers"] != ["step_bsimp", "step_rk4"]:
             probe_failures.append({"key": "candidates " + key, "what": "candidates benchmarked: %s (expected explicit rk4 and implicit bsimp)" % r1["steppers"], "replay": {"kind": "bench", "task": tasks[2 * k]}})
@@ -253,6 +254,8 @@ def replay(payload):
         res = C.run_tasks([dict(rp["task"], fresh=True)], timeout=900, stub=True)[0]
         if res.get("outcome") != "Ok":
             return False, "run failed %s" % res
+        if len(res["trains"]) != 2:
+            return False, "%d candidate benchmark(s) made (steppers %s)" % (len(res["trains"]), res.get("steppers"))
         ok = res["trains"][0] == res["trains"][1]
         ok = ok and all(st["t"] != 0.0 or st["y"] == rp["task"].get("ivs", st["y"])[:len(st["y"])] for st in res.get("starts", {}).values())
         if "task2" in rp:
